@@ -6,6 +6,7 @@ import (
 	"sort"
 	"strings"
 	"sync"
+	"sync/atomic"
 
 	ds "github.com/ipfs/go-datastore"
 	dsq "github.com/ipfs/go-datastore/query"
@@ -50,7 +51,11 @@ type CrashDS struct {
 	// ErrOnPrefix, when not empty, makes the next durable write that touches a key with this prefix fail with a
 	// plain I/O error (not applied), once.
 	ErrOnPrefix string
+	// mutateHook, when set (SetMutateHook), is called (without the lock) right before a durable op is carried out:
+	// the place where another goroutine's call can be slipped in between what a writer decided and what it writes.
+	mutateHook  atomic.Pointer[func(kind string, keys []string)]
 	failQueries int
+	failGets    int
 }
 
 var _ ds.Batching = (*CrashDS)(nil)
@@ -136,6 +141,22 @@ func (d *CrashDS) FailQueries(n int) {
 	d.failQueries = n
 }
 
+// SetMutateHook installs (nil: removes) the hook called before every durable op.
+func (d *CrashDS) SetMutateHook(f func(kind string, keys []string)) {
+	if f == nil {
+		d.mutateHook.Store(nil)
+		return
+	}
+	d.mutateHook.Store(&f)
+}
+
+// FailGets makes the next n Get calls fail with an I/O error (a transient read fault; nothing is changed).
+func (d *CrashDS) FailGets(n int) {
+	d.mu.Lock()
+	defer d.mu.Unlock()
+	d.failGets = n
+}
+
 func (d *CrashDS) Disarm() {
 	d.mu.Lock()
 	defer d.mu.Unlock()
@@ -168,6 +189,9 @@ var errInjected = errors.New("crashds: injected I/O error")
 
 // mutate runs one durable op. Caller must not hold mu.
 func (d *CrashDS) mutate(kind string, keys []string, size int, apply func()) error {
+	if h := d.mutateHook.Load(); h != nil {
+		(*h)(kind, keys)
+	}
 	d.mu.Lock()
 	if d.dead {
 		d.mu.Unlock()
@@ -222,6 +246,11 @@ func (d *CrashDS) Get(ctx context.Context, key ds.Key) ([]byte, error) {
 	if d.dead {
 		d.mu.Unlock()
 		return nil, ErrDead
+	}
+	if d.failGets > 0 {
+		d.failGets--
+		d.mu.Unlock()
+		return nil, errors.New("crashds: injected read fault (get)")
 	}
 	v, ok := d.data[key.String()]
 	out := append([]byte(nil), v...)
